@@ -73,6 +73,10 @@ func (g *Gen) genFrozen(n int) error {
 			g.forceBigVariant = 0
 			continue
 		}
+		if i == 33 && g.dumpfiles {
+			g.storedArraysMergeCase()
+			continue
+		}
 		if i == 38 && g.dumpfiles {
 			// a doc-value field without any value in the middle chunk, built and merged, both dumped
 			g.sparseDvMergeCase()
@@ -390,6 +394,10 @@ func (g *Gen) genC14(n int) error {
 				for _, fn := range []string{"vecA", "vecB"} {
 					h := g.fresh("h")
 					ex := g.randDrops(len(b.Docs))
+					if seg == o {
+						// (never empty for the opened copy: documents early in the segment, in its middle, at its end)
+						ex = intList([]int{1, 4, 9, len(b.Docs) / 3, len(b.Docs) / 2, len(b.Docs) - 2})
+					}
 					g.emit("vopen %s %s %s filt=1 ex=%s", h, seg, fn, ex)
 					for q := 0; q < 6; q++ {
 						g.emit("vsearch %s q=%s k=%d", h, g.randQuery(2), 1+g.r.Intn(8))
@@ -1661,4 +1669,53 @@ func (g *Gen) freq0MergeCase(after func(m string)) {
 		g.emit("close %s", m)
 	}
 	g.st("merge.freq0")
+}
+
+// storedArraysMergeCase: documents whose stored values carry more array positions than the segment
+// has fields (an array field of eight elements, a nested one), merged on the re-encoding path (a
+// deletion; another field list) and by copying; the files are dumped and the stored fields read.
+func (g *Gen) storedArraysMergeCase() {
+	g.setMode()
+	mk := func(extra bool) string {
+		b := &BatchSpec{Name: g.fresh("b")}
+		for d := 0; d < 3; d++ {
+			id := []byte(fmt.Sprintf("%s-%d", b.Name, d))
+			doc := DocSpec{ID: id, Plain: true}
+			doc.Fields = append(doc.Fields, FieldSpec{Kind: "fld", Name: "_id", Typ: 't', Stored: true, Len: 1, Val: id, Toks: []TokSpec{{Term: id, Freq: 1}}})
+			for k := 0; k < 8; k++ {
+				doc.Fields = append(doc.Fields, FieldSpec{Kind: "fld", Name: "tags", Typ: 't', Stored: true, Len: 1, Val: []byte(fmt.Sprintf("tag%d-%d", d, k)),
+					AP: []uint64{uint64(k)}, Toks: []TokSpec{{Term: []byte(fmt.Sprintf("t%d", k)), Freq: 1}}})
+			}
+			for k := 0; k < 3; k++ {
+				doc.Fields = append(doc.Fields, FieldSpec{Kind: "fld", Name: "nest", Typ: 't', Stored: true, Len: 1, Val: []byte(fmt.Sprintf("n%d", k)),
+					AP: []uint64{uint64(k), uint64(d), 1 << 33}})
+			}
+			if extra {
+				doc.Fields = append(doc.Fields, FieldSpec{Kind: "fld", Name: "other", Typ: 't', Stored: true, Len: 1, Val: []byte("o")})
+			}
+			b.Docs = append(b.Docs, doc)
+		}
+		g.emitBatch(b)
+		s := g.fresh("s")
+		g.emit("build %s %s", s, b.Name)
+		g.newBuilt(s, b)
+		return s
+	}
+	a, bsame, bother := mk(false), mk(false), mk(true)
+	for _, c := range []struct {
+		segs  []string
+		drops string
+		n     int
+	}{{[]string{a}, "1", 2}, {[]string{a, bsame}, "nil|nil", 6}, {[]string{a, bsame}, "0|2", 4}, {[]string{a, bother}, "nil|nil", 6}, {[]string{bother, a}, "1|0,1", 3}} {
+		f := g.fresh("f")
+		g.emit("merge %s segs=%s drops=%s", f, strList(c.segs), c.drops)
+		g.emit("dumpfile %s", f)
+		m := g.fresh("m")
+		g.emit("open %s %s", m, f)
+		for d := 0; d < c.n; d++ {
+			g.emit("q stored %s %d stop=*", m, d)
+		}
+		g.emit("close %s", m)
+	}
+	g.st("merge.storedarrays")
 }
